@@ -578,3 +578,13 @@ for _p in ('C01', 'C13'):
 # a panic anywhere in the planner is a C20 matter: solve on skeletons with field providers and missing types
 PROPS['C20']['quick'] = PROPS['C20']['quick'] + [solve(1347, K=1, missing=2), solve(13467, K=1, missing=1)]
 PROPS['C20']['thorough'] = PROPS['C20']['thorough'] + [solve(11347, K=2, missing=2), solve(134567, K=1, missing=1)]
+
+
+# homonymous packages also for the cleanup / failure contract and for unused items (seeded changes S103, S108)
+for _p in ('C03', 'C04', 'C08'):
+    for _t in ('quick', 'thorough'):
+        PROPS[_p][_t] = PROPS[_p][_t] + [sideb(['packages'])]
+
+# adversarial names matter for the aggregate cleanup too (seeded change S104: the single cleanup returned under the literal name)
+for _t in ('quick', 'thorough'):
+    PROPS['C04'][_t] = PROPS['C04'][_t] + [sideb(['naming'])]
